@@ -10,6 +10,7 @@ Decides, for every input, obligations of four kinds in the functions it is point
 Unmodelled constructs give unknown values (sound); a proof that fails only because of an unmodelled source is reported
 as undecidable, a proof that fails on modelled values as a violation.  Qt semantics used are listed in QT_MODEL_DOC.
 """
+import os
 import re
 
 from .dbm import DBM, INF, Z
@@ -393,7 +394,19 @@ class Interp:
         for b in names:
             _, sp, sy, _, _ = b.split("|")
             if sy == sym or (path is not None and sp == path) or sp == sym:
-                st.drop_bool(b)
+                if self.record and getattr(self, "freeze", None) is not None and len(st.parts) <= 32:
+                    # final pass over a loop: the fact dies, but the case distinction it made is kept (under a name that means nothing)
+                    # until the back edge, so that "this iteration changed nothing" can be seen per case instead of being joined away
+                    self.freeze[0] += 1
+                    z = "z|%d" % self.freeze[0]
+                    self.freeze[1].add(z)
+                    parts = {}
+                    for k, d in st.parts.items():
+                        nk = frozenset((z if bb == b else bb, v) for bb, v in k)
+                        st._put(parts, nk, d)
+                    st.parts = parts
+                else:
+                    st.drop_bool(b)
 
     @staticmethod
     def char_const(n):
@@ -1387,10 +1400,33 @@ class Interp:
                             return True
                 return False
 
+            # a one-character needle searched from a symbolic position: decide by cases whether it stands right there (the search then
+            # answers that position, which is what makes `pos = s.indexOf(c, pos)` repeat itself) or not (strict progress)
+            if not last and needle and len(needle) == 1 and frm is not None and opath is not None and fsg is not None and ls and len(st.parts) <= 24:
+                name = "c|%s|%s|%d|%d" % (opath, fsg[0], fsg[1], ord(needle))
+                if any(dict(k).get(name) is None for k in st.parts):
+                    t_, f_ = st.split_bool(name)
+                    t_.each(lambda d: refine(d, frm, "<=", Lin.sym(ls).add(Lin.const(-1))))
+                    t_.each(lambda d: refine(d, frm, ">=", Lin.const(0)))
+                    merged = dict(f_.parts)
+                    for k_, d_ in t_.parts.items():
+                        if not d_.bottom:
+                            merged[k_] = d_
+                    st.parts = merged
+
+            def match_at_start(key):
+                """a one-character needle that is known to stand at position `from`: the search answers `from` itself"""
+                if last or not needle or len(needle) != 1 or frm is None or opath is None or fsg is None:
+                    return False
+                return ("c|%s|%s|%d|%d" % (opath, fsg[0], fsg[1], ord(needle)), 1) in key
+
             def f(key, d):
                 strict = 1 if no_match_at_start(key, d) else 0
                 d.assign_top(r)
                 d.add_lower(r, -1)
+                if match_at_start(key) and lin_lower(d, frm) >= 0:
+                    refine(d, Lin.sym(r), "==", frm)
+                    return
                 if ls:
                     k = kconst if kconst is not None else 0 if klin is None else max(lin_lower(d, klin), 0)
                     d.add(r, ls, -max(k, 0))
@@ -2115,9 +2151,21 @@ class Interp:
                 self.names.setdefault(g, "%s@head" % self.names.get(s, s))
             for s, g in ghosts.items():
                 head.each(lambda d, s=s, g=g: (d.ensure(g), d.add_eq(g, s, 0)))
+        outer_freeze = getattr(self, "freeze", None)
+        if self.record:
+            self.freeze = [outer_freeze[0] if outer_freeze else 0, set()]
         t, backs, exits, rets = self._one_pass(n, kind, head)
         if self.record:
             self.check_termination(n, kind, entry, t, backs, ghosts, mod)
+            zs = list(self.freeze[1])
+            if zs:
+                for e_ in exits:
+                    e_.forget(bools=zs)
+                for rs, _ in rets:
+                    rs.forget(bools=zs)
+            if outer_freeze:
+                outer_freeze[0] = self.freeze[0]
+            self.freeze = outer_freeze
         out = join_all(exits)
         gs = list(ghosts.values())
         if gs:
@@ -2251,6 +2299,11 @@ class Interp:
             # a definite verdict needs a definite witness: a path back to the loop head on which every tracked quantity is provably
             # unchanged (the iteration repeats itself). Weak progress (x' >= x without x' > x) is only "not proved": the equal case
             # may be excluded by a fact outside the domain (a character test on the text, say)
+            if os.environ.get("VERIF_ZONE_DEBUG"):
+                for b in backs:
+                    for key_, d in b.parts.items():
+                        if not d.bottom:
+                            print("ZDBG", self.fn.name.split("::")[-1], self._loop_label(n), sorted(key_)[:6], {self.names.get(s, s): (d.get(g, s), d.get(s, g)) for s, g in cands})
             stuck = [d for d in bd if all(d.get(g, s) <= 0 and d.get(s, g) <= 0 for s, g in cands)]
             if stuck:
                 self.ob("term", n, False, "%s: no ranking function — on a path back to the loop head none of {%s} changes at all: the iteration repeats itself" % (what, tried), key)
